@@ -88,6 +88,14 @@ def call_outcomes(self: Interp, node: ast.Call, st: State):
             return [(st, _quant(self, node, st, nm), None)]
         if nm == "implies":
             a = self.truth(self.eval(node.args[0], st), st)
+            if not isinstance(a, bool) and self.in_contract:
+                # a guard that is impossible on this path makes the implication true without evaluating the body
+                n0 = len(st.pc)
+                st.assume(a)
+                ok = self.feasible(st, 500)
+                del st.pc[n0:]
+                if not ok:
+                    return [(st, True, None)]
             b = self.truth(self.eval_guarded(node.args[1], st, a), st) if not isinstance(a, bool) else (
                 self.truth(self.eval(node.args[1], st), st) if a else True)
             return [(st, zimplies(a, b), None)]
@@ -98,6 +106,11 @@ def call_outcomes(self: Interp, node: ast.Call, st: State):
             return [(st, zite(c, a, b), None)]
         if nm == "old":
             return [(st, self.eval_old(node.args[0], st), None)]
+        if nm == "before":
+            snap = getattr(self.frame, "before", None)
+            if snap is None:
+                raise Unsupported("before() outside a statement contract")
+            return [(st, self.eval_old(node.args[0], st, snap), None)]
         if nm == "cast":
             return [(st, self.eval(node.args[1], st), None)]
         if nm == "print":
@@ -125,6 +138,13 @@ def call_outcomes(self: Interp, node: ast.Call, st: State):
     kwargs = {}
     for kw in node.keywords:
         if kw.arg is None:
+            v = self.eval(kw.value, st)
+            if isinstance(v, Ref) and v.what == "cdict":
+                for k2, v2 in st.heap[v.rid].items.items():
+                    if not isinstance(k2, str):
+                        raise Unsupported("**kwargs with symbolic key")
+                    kwargs[k2] = v2
+                continue
             raise Unsupported("**kwargs call")
         kwargs[kw.arg] = self.eval(kw.value, st)
     return self.dispatch_call(f, args, kwargs, st, node)
@@ -211,7 +231,12 @@ def dispatch_call(self: Interp, f, args, kwargs, st, node):
                 key = self.repo.method_key(recv.name, f.name)
                 r = self.repo.find_method(recv.name, f.name)
                 decos = getattr(r[1], "_decos", [])
-                selfv = None if "staticmethod" in decos else recv
+                if "staticmethod" in decos:
+                    selfv = None
+                elif "classmethod" in decos:
+                    selfv = recv
+                else:  # unbound method call: Class.method(self, ...)
+                    selfv, args = args[0], args[1:]
                 return self.apply_contract(key, selfv, args, kwargs, st, node)
             raise Unsupported("method of symbolic class")
         if isinstance(recv, (Arr, Ref, VStr, VTuple)):
@@ -307,16 +332,31 @@ class FrameCtx:
         return False
 
 
-def eval_old(self: Interp, node, st):
-    pre = self.frame.pre
+def eval_old(self: Interp, node, st, snap=None):
+    pre = snap if snap is not None else self.frame.pre
     if pre is None:
         raise Unsupported("old() without a pre-state")
     s = pre.fork()
     env = dict(st.env)
-    env.update(pre.env)
+    if snap is None:
+        env.update(pre.env)
+    else:  # statement snapshot: locals as they were before the statement (bound variables stay visible)
+        for k_, v_ in pre.env.items():
+            env[k_] = v_
+        for k_, v_ in st.env.items():
+            if k_ not in pre.env:
+                env[k_] = v_
     s.env = env
     s.facts = st.facts  # share instantiated axioms
-    return self.eval(node, s)
+    v = self.eval(node, s)
+    # a reference must not be dereferenced in the CURRENT heap: return the snapshotted (immutable) content
+    if isinstance(v, Opt) and isinstance(v.val, Ref):
+        return Opt(v.is_none, s.heap[v.val.rid])
+    if isinstance(v, Ref):
+        return s.heap[v.rid]
+    if isinstance(v, Obj):
+        raise Unsupported("old(<object>): write old(obj.field) instead")
+    return v
 
 
 def contract_truth(self: Interp, src, st):
@@ -344,7 +384,12 @@ def havoc(self: Interp, target: str, st: State, callee_env=None):
                         st.heap[o.oid][fld] = fresh(t, f"{o.cls}.{fld}", st, self)
         return
     if isinstance(node, ast.Attribute) and isinstance(node.value, ast.Name) and node.value.id == "ghost":
-        st.ghost[node.attr] = fresh_like(st.ghost[node.attr], f"ghost.{node.attr}", st)
+        cur = self.getattr(self.lookup("ghost", st), node.attr, st)
+        if contents and isinstance(cur, Ref):
+            cell = st.heap[cur.rid]
+            st.heap[cur.rid] = fresh_arr_like(cell, fresh_name("hv"), st, keep_shape=False)
+            return
+        st.ghost[node.attr] = fresh_like(cur, f"ghost.{node.attr}", st)
         return
     self.in_contract += 1
     try:
@@ -483,11 +528,35 @@ def make_exc(self: Interp, ent, st):
     raise Unsupported("raises entry does not denote a class")
 
 
+_hq_cache: dict = {}
+
+
+def has_quantifier(e) -> bool:
+    k = e.get_id()
+    if k in _hq_cache:
+        return _hq_cache[k]
+    todo, seen, found = [e], set(), False
+    while todo:
+        x = todo.pop()
+        i = x.get_id()
+        if i in seen:
+            continue
+        seen.add(i)
+        if z3.is_quantifier(x):
+            found = True
+            break
+        todo.extend(x.children())
+    _hq_cache[k] = found
+    return found
+
+
 def feasible(self: Interp, st: State, timeout_ms=1500) -> bool:
+    """Path pruning only: quantified assumptions are dropped (over-approximates feasibility, hence sound)."""
     s = z3.Solver()
     s.set("timeout", timeout_ms)
     for a in st.assumptions():
-        s.add(a)
+        if not has_quantifier(a):
+            s.add(a)
     return s.check() != z3.unsat
 
 
